@@ -72,6 +72,12 @@ fn state_name(i: usize, multibyte: bool) -> String {
             let k = 9usize.saturating_sub(i);
             return format!("{}{}tail", ".\u{E9}".repeat(k), if multibyte { "\u{1F600}" } else { "" });
         }
+        6 => {
+            // growth: one application multiplies the number of code points by exactly 18 (NFKC's worst case,
+            // U+FDFA), by 19, by 324 ... and shrinks by the same factors the other way
+            let n = [1usize, 18, 324, 5832, 19, 342, 2, 36, 17, 306][i % 10];
+            return if multibyte { "\u{FDFA}".repeat(n) } else { "y".repeat(n) };
+        }
         s if s >= 10 => {
             // well-known colliding pairs of common 32-bit string hashes (FNV-1a, FNV-1, x31, DJB2, CRC-32):
             // a 'hash instead of compare' shortcut is only observable on colliding strings
@@ -265,7 +271,7 @@ pub fn run(env: &Env) -> Rec {
     rec.exhaustive(format!("all total-or-failing functions on n<={} states x every start state", max_n));
     // the same function spaces (n <= 4 / 5) with long state strings: equal length + 70-byte common prefix, and
     // each state a strict prefix of the next (content- or length-based shortcuts instead of a full comparison)
-    for scheme in (1u8..=5).chain(10..10 + COLLISIONS.len() as u8) {
+    for scheme in (1u8..=6).chain(10..10 + COLLISIONS.len() as u8) {
         let top = if scheme >= 10 { 3 } else if env.quick() { 4 } else { 5 };
         for n in 1..=top as usize {
             let total = (n + 1).pow(n as u32);
@@ -284,7 +290,7 @@ pub fn run(env: &Env) -> Rec {
             rec.merge(r);
         }
     }
-    rec.exhaustive("the same for n<=4 (quick) / 5 (thorough) with long state strings (70-byte common prefix and equal length; strict prefixes; nested interior slices; the empty string as a state; proper suffixes) and for n<=3 with 17 well-known colliding string pairs of common 32-bit hashes as state names");
+    rec.exhaustive("the same for n<=4 (quick) / 5 (thorough) with long state strings (70-byte common prefix and equal length; strict prefixes; nested interior slices; the empty string as a state; proper suffixes; names whose code point counts differ by factors of exactly 17, 18, 19 and 324) and for n<=3 with 17 well-known colliding string pairs of common 32-bit hashes as state names");
     // long chains / cycles beyond the exhaustive state bound
     for k in 0..=8usize {
         // converge after exactly k changes: 0 -> 1 -> ... -> k -> k
